@@ -85,7 +85,48 @@ def history_dependence(res, keys):
     return found
 
 
+SUBCLASS_PROBE = """
+import json
+from nv.props import c02
+from nv.extract import t1_scalar
+cells = [("add", [("sec", "int"), ("sec", "int")]), ("sub", [("pub", "int"), ("sec", "int")]), ("mul", [("pub", "uint"), ("pub", "uint")]),
+         ("lt", [("sec", "int"), ("pub", "int")]), ("eq", [("sec", "bool"), ("pub", "bool")]), ("ifElse", [("pub", "bool"), ("pub", "int"), ("sec", "int")]),
+         ("shl", [("sec", "uint"), ("pub", "uint")]), ("div", [("sec", "uint"), ("sec", "uint")]), ("reveal", [("sec", "bool")]), ("invert", [("pub", "bool")])]
+known = {name for name, _ in t1_scalar.BINOPS + t1_scalar.METHODS2 + t1_scalar.UNARY} | {"ifElse"}
+cells = [c for c in cells if c[0] in known]
+before = [c02.cell_outcomes(op, stys) for op, stys in cells]
+# a program (or a helper module) derives its own classes from the scalar types — as a namespace for named constructors, never instantiated
+made = []
+for sty, cls in t1_scalar.CLASSES.items():
+    made.append(type("My" + cls.__name__, (cls,), {"__doc__": "a class of the user's program"}))
+after = [c02.cell_outcomes(op, stys) for op, stys in cells]
+print(json.dumps([[op, [list(s) for s in stys], b, a] for (op, stys), b, a in zip(cells, before, after) if a != b]))
+"""
+
+
+def subclass_probe(res):
+    """A test, not part of the table: a user's program may define classes derived from the scalar types.  Their mere existence must not
+    change what the operators return for the nine types themselves — the outcome depends on the operand types only."""
+    import os
+    import subprocess
+    import sys
+    env = dict(os.environ, PYTHONPATH=os.pathsep.join([os.path.join(core.VERIF, "harness"), core.REPO]), PYTHONDONTWRITEBYTECODE="1")
+    p = subprocess.run([sys.executable, "-c", SUBCLASS_PROBE], env=env, capture_output=True, text=True, timeout=600)
+    try:
+        changed = json.loads(p.stdout.strip().split("\n")[-1])
+    except (ValueError, IndexError):
+        res.broken.append({"decl": "C02 subclass probe", "msg": (p.stderr or p.stdout)[-300:]})
+        return 0
+    for op, stys, before, after in changed[:3]:
+        names = [t1_scalar.CLASSES[tuple(s_)].__name__ for s_ in stys]
+        res.violation({"property": "C02", "kind": "subclass", "op": op, "args": stys, "arg_classes": names, "before": before, "after": after},
+                      f"{op}({', '.join(names)}): outcomes {before}; after the program defined classes derived from the scalar types (never "
+                      f"instantiated): {after} — the result type no longer depends on the operand types only"[:500])
+    return len(changed)
+
+
 def run(res, tier):
+    subclass_probe(res)
     # 1. the Lean definition evaluated on the regenerated table (names the failing cells)
     ans = core.driver([{"k": "c02cells"}])[0]
     lean_fail = {(c["op"], tuple(c["args"])) for c in ans["cellOK"]}
@@ -131,6 +172,19 @@ def run(res, tier):
 def replay(obj):
     from ..real.env import reset_globals
     op, stys = obj["op"], [tuple(a) for a in obj["args"]]
+    if obj.get("kind") == "subclass":
+        class _R2:
+            broken = []
+            n = 0
+
+            def violation(self, o, text):
+                self.n += 1
+                print(text)
+        r2 = _R2()
+        subclass_probe(r2)
+        if r2.n:
+            print("VIOLATION property=C02 replay=(replayed)")
+        return 1 if r2.n else 0
     if obj.get("kind") == "history":
         class _R:
             n = 0
